@@ -103,14 +103,14 @@ type meterRow struct {
 }
 
 type meterEvent struct {
-	Kind    string              `json:"kind"` // restart | tick | resend | tick+resend
-	Content string              `json:"content,omitempty"`
-	Recs    [][2]uint64         `json:"records,omitempty"` // (slot, energy) the real reader returns for the content
-	From    uint32              `json:"from,omitempty"`
-	N       uint32              `json:"n,omitempty"`
-	Rounds  int                 `json:"rounds,omitempty"` // completed scans of the sync loop
-	Out     [][2]uint64         `json:"emitted"`
-	Raw     []string            `json:"-"`
+	Kind    string      `json:"kind"` // restart | tick | resend | tick+resend
+	Content string      `json:"content,omitempty"`
+	Recs    [][2]uint64 `json:"records,omitempty"` // (slot, energy) the real reader returns for the content
+	From    uint32      `json:"from,omitempty"`
+	N       uint32      `json:"n,omitempty"`
+	Rounds  int         `json:"rounds,omitempty"` // completed scans of the sync loop
+	Out     [][2]uint64 `json:"emitted"`
+	Raw     []string    `json:"-"`
 }
 
 type meterCase struct {
